@@ -6,7 +6,8 @@
  *
  * The slot store is abstract: slot ids are HANDLES (the code under test never does arithmetic on them, it only compares
  * them with NULL_SLOT and passes them to ResourceManager::getVariant).  Two models of getVariant are used:
- *   small store  NS = 6 harness-owned VariantData objects whose ids are 6 arbitrary distinct symbolic values != NULL_SLOT;
+ *   small store  NS = 6 harness-owned VariantData objects whose ids are base..base+5 for an arbitrary symbolic base
+ *                (every id value below NULL_SLOT occurs; 6 fully arbitrary distinct ids made minisat hang);
  *                contents (type_, content_, next_) fully symbolic.  Loop-free routines verified over it are class U (the
  *                routine touches at most 3 slots); list traversals over harness-built lists of length <= 4 are class B.
  *   big store    a malloc'ed array of symbolic size n <= BIG_MAX, id == index; the universally quantified part of the
@@ -16,6 +17,21 @@
  * lacks a key or a value and every value outside the path being modified is unchanged"; C06: "released exactly once"). */
 #include "verif.h"
 #include "config.h"
+#ifdef U_LOOPS
+/* ghosts named by the loop invariants of collections.loops.json (spliced into lowered.c, hence declared before it) */
+struct VariantData;
+static struct VariantData *g_store;                  /* big store: g_cnt slots, id == index */
+static uint64_t g_cnt, g_len, g_w, g_u;
+static unsigned *g_dist, *g_rank;                    /* g_dist: steps to the witness g_w (DIST_NONE: not before it); g_rank: steps to the end */
+static uint64_t *g_pos;                              /* position in the list */
+static _Bool *g_member;                              /* slot belongs to the list */
+static unsigned g_w_frees, g_u_frees, g_free_calls;
+static void *g_u_bits; static unsigned char g_u_type; static uint64_t g_u_next;
+#define DIST_NONE 0xFFFFFFFFu
+#ifndef BIG_MAX
+#define BIG_MAX 0xFFFFFFFFull
+#endif
+#endif
 #ifdef VERIF_NATIVE
 #include "lowered_types.h"
 #else
@@ -67,19 +83,16 @@ static unsigned g_getv_calls, g_free_calls;
 static _Bool g_freed[NS];
 static int g_free_order[NS];
 
+static slotid_t g_base; /* the NS ids are g_base .. g_base+NS-1 for an arbitrary base (all below NULL_SLOT, no wrap) */
 static int idx_of(slotid_t id) {
-  if (id == NSLOT) return -1;
-  for (int i = 0; i < NS; i++)
-    if (g_id[i] == id) return i;
-  return -1;
+  if (id == NSLOT || id < g_base || (uint64_t)id - g_base >= NS) return -1;
+  return (int)(id - g_base);
 }
 /* closed: every next_ is NULL_SLOT or the id of a slot of the store (the part of WF a traversal needs) */
 static void mk_store(_Bool closed) {
-  for (int i = 0; i < NS; i++) {
-    g_id[i] = (slotid_t)in_u32();
-    __CPROVER_assume(g_id[i] != NSLOT);
-    for (int j = 0; j < i; j++) __CPROVER_assume(g_id[j] != g_id[i]);
-  }
+  g_base = (slotid_t)in_u32();
+  __CPROVER_assume((uint64_t)g_base + NS <= (uint64_t)NSLOT);
+  for (int i = 0; i < NS; i++) g_id[i] = (slotid_t)(g_base + i);
   for (int i = 0; i < NS; i++) {
     havoc_slot(&g_slots[i]);
     if (closed) __CPROVER_assume(g_slots[i].next_ == NSLOT || idx_of(g_slots[i].next_) >= 0);
@@ -158,11 +171,12 @@ void h_appendOne(void) {
   mk_store(0);
   struct CollectionData c;
   _Bool empty = in_bool();
-  unsigned a = in_u8(), b = in_u8(), k = in_u8();
-  __CPROVER_assume(a < NS && b < NS && k < NS);
+  /* store entries are harness-internal names (ids are symbolic): head = entry 0, tail = entry 0 or 1, new slot = entry 2 */
+  const unsigned a = 0, k = 2;
+  unsigned b = in_bool() ? 1 : 0;
   c.head_ = empty ? NSLOT : g_id[a];
   c.tail_ = empty ? NSLOT : g_id[b];
-  __CPROVER_assume(g_slots[k].next_ == NSLOT && (empty || k != b)); /* a detached slot */
+  __CPROVER_assume(g_slots[k].next_ == NSLOT); /* a detached slot (not the tail) */
   snapshot();
   VSlot s;
   s.ptr_ = &g_slots[k];
@@ -176,7 +190,7 @@ void h_appendOne(void) {
     CHECK(c.head_ == g_id[a], "appendOne on a non-empty list leaves head_");
     CHECK(g_slots[b].next_ == g_id[k], "appendOne: next(old tail) = id");
 #ifdef CANARY_APPEND_ONE
-    CHECK(c.tail_ == (slotid_t)(g_id[k] + (k == 0)), "appendOne: tail' = id");
+    CHECK(c.tail_ == (slotid_t)(g_id[k] + (b == 0)), "appendOne: tail' = id");
 #else
     CHECK(c.tail_ == g_id[k], "appendOne: tail' = id");
 #endif
@@ -191,11 +205,11 @@ void h_appendPair(void) {
   mk_store(0);
   struct CollectionData c;
   _Bool empty = in_bool();
-  unsigned a = in_u8(), b = in_u8(), k = in_u8(), v = in_u8();
-  __CPROVER_assume(a < NS && b < NS && k < NS && v < NS && k != v);
+  const unsigned a = 0, k = 2, v = 3; /* entries: head 0, tail 0 or 1, key 2, value 3 (harness-internal names) */
+  unsigned b = in_bool() ? 1 : 0;
   c.head_ = empty ? NSLOT : g_id[a];
   c.tail_ = empty ? NSLOT : g_id[b];
-  __CPROVER_assume(g_slots[v].next_ == NSLOT && (empty || (k != b && v != b))); /* two detached slots */
+  __CPROVER_assume(g_slots[v].next_ == NSLOT); /* two detached slots (neither is the tail) */
   snapshot();
   VSlot ks, vs;
   ks.ptr_ = &g_slots[k]; ks.id_ = g_id[k];
@@ -205,7 +219,7 @@ void h_appendPair(void) {
   CHECK(g_slots[k].next_ == g_id[v], "appendPair: next(key) = value");
   CHECK(slot_same_value(&g_slots[k], &g_before[k]), "appendPair keeps what the key slot holds");
 #ifdef CANARY_APPEND_PAIR
-  CHECK(c.tail_ == g_id[v] && v != 0, "appendPair: tail' = value id");
+  CHECK(c.tail_ == g_id[v] && b != 0, "appendPair: tail' = value id");
 #else
   CHECK(c.tail_ == g_id[v], "appendPair: tail' = value id");
 #endif
@@ -227,8 +241,7 @@ void h_createIterator(void) {
   mk_store(1);
   struct CollectionData c;
   _Bool empty = in_bool();
-  unsigned a = in_u8();
-  __CPROVER_assume(a < NS);
+  const unsigned a = 0; /* head = entry 0 (harness-internal name) */
   c.head_ = empty ? NSLOT : g_id[a];
   c.tail_ = (slotid_t)in_u32();
   struct CollectionData c0 = c;
@@ -236,7 +249,7 @@ void h_createIterator(void) {
   struct CollectionIterator it = CollectionData__createIterator(&c, &g_rm);
   COVER(empty); COVER(!empty);
 #ifdef CANARY_CREATE_ITER
-  CHECK(it.slot_ == (empty ? (VD *)0 : &g_slots[a]) && a != 1, "createIterator designates the head slot (done iff the list is empty)");
+  CHECK(it.slot_ == (empty ? (VD *)0 : &g_slots[a]) && g_slots[a].type_ != 1, "createIterator designates the head slot (done iff the list is empty)");
 #else
   CHECK(it.slot_ == (empty ? (VD *)0 : &g_slots[a]), "createIterator designates the head slot (done iff the list is empty)");
 #endif
@@ -247,8 +260,7 @@ void h_createIterator(void) {
 }
 void h_iter_next(void) {
   mk_store(1);
-  unsigned a = in_u8();
-  __CPROVER_assume(a < NS);
+  const unsigned a = 0; /* current = entry 0; its successor is any entry (possibly itself) or none */
   struct CollectionIterator it;
   it.slot_ = &g_slots[a];
   it.currentId_ = g_id[a];
@@ -448,5 +460,117 @@ void h_clear_b(void) {
   CHECK(all && g_free_calls == g_n, "C06: clear() releases every linked slot exactly once, in list order, and nothing else");
 #endif
   CHECK(unchanged_except(list_mask()), "clear() writes no slot outside the list");
+}
+#endif
+
+/* ===================================================================================================================
+ * unit coll_loops: the three list traversals of CollectionData closed by loop contracts => lists of ARBITRARY length (U).
+ * Big store: g_cnt <= NULL_SLOT slots (symbolic), id == index.  The ordered-list model is carried by ghost arrays:
+ *   g_rank[id]  steps to the end of the list (acyclicity, termination)      g_pos[id]  position in the list, g_len its length
+ *   g_member[id] the slot is linked in the list                              g_dist[id] steps to the witness slot g_w
+ * RI(id): next(id) is NULL_SLOT or an id of the store, and rank/pos/member/dist of id and next(id) are related as in a list.
+ * The universally quantified "RI(id) for every id" is instantiated LAZILY: the getVariant stub assumes RI(id) for the id it
+ * is asked (on the current state; the traversals below only write slots through the freeVariant stub, and size()/
+ * getPreviousSlot() are shown to write nothing at all: arbitrary witness g_u).  Universally quantified conclusions use
+ * arbitrary witnesses: g_w (a linked slot), g_u (any other slot). */
+#ifdef U_LOOPS
+typedef struct Slot_VariantData VSlot;
+static struct ResourceManager g_rm;
+VD *ResourceManager__getVariant(struct ResourceManager *self, slotid_t id) {
+  CHECK(self == &g_rm, "getVariant is asked on the document's resource manager");
+  if (id == NSLOT) return (VD *)0;
+  CHECK(id < g_cnt, "getVariant receives the id of an existing slot");
+  slotid_t nx = g_store[id].next_;
+  __CPROVER_assume(nx == NSLOT || nx < g_cnt);
+  __CPROVER_assume(nx == NSLOT || g_rank[nx] < g_rank[id]);
+  __CPROVER_assume(g_rank[id] < 0x7FFFFFFFu && g_pos[id] < g_cnt);
+  __CPROVER_assume(nx == NSLOT ? g_pos[id] + 1 == g_len : g_pos[nx] == g_pos[id] + 1);
+  __CPROVER_assume(!g_member[id] || nx == NSLOT || g_member[nx]);
+  if (g_dist[id] == 0) __CPROVER_assume(id == g_w && (nx == NSLOT || g_dist[nx] == DIST_NONE));
+  else if (g_dist[id] == DIST_NONE) __CPROVER_assume(id != g_w && (nx == NSLOT || g_dist[nx] == DIST_NONE));
+  else __CPROVER_assume(id != g_w && nx != NSLOT && g_dist[nx] == g_dist[id] - 1);
+  return &g_store[id];
+}
+void ResourceManager__freeVariant(struct ResourceManager *self, VSlot v) {
+  CHECK(self == &g_rm, "freeVariant is asked on the document's resource manager");
+  CHECK(v.id_ != NSLOT && v.id_ < g_cnt && v.ptr_ == &g_store[v.id_], "freeVariant receives the (address,id) pair of one existing slot");
+  g_free_calls++;
+  if (v.id_ == g_w) g_w_frees++;
+  if (v.id_ == g_u) g_u_frees++;
+  havoc_slot(&g_store[v.id_]); /* contract of freeVariant: see the small-store stub */
+}
+unsigned long VariantData__nesting__ResourceManager_p(VD *self, struct ResourceManager *resources) { return in_u64(); }
+static void mk_big(void) {
+  g_cnt = in_u64();
+  __CPROVER_assume(g_cnt >= 1 && g_cnt <= (uint64_t)NSLOT && g_cnt <= BIG_MAX);
+  g_store = malloc(g_cnt * sizeof(VD));
+  g_dist = malloc(g_cnt * sizeof(unsigned));
+  g_rank = malloc(g_cnt * sizeof(unsigned));
+  g_pos = malloc(g_cnt * sizeof(uint64_t));
+  g_member = malloc(g_cnt * sizeof(_Bool));
+  __CPROVER_assume(g_store && g_dist && g_rank && g_pos && g_member);
+  g_w = in_u64(); g_u = in_u64();
+  __CPROVER_assume(g_w < g_cnt && g_u < g_cnt);
+  memcpy(&g_u_bits, &g_store[g_u].content_, sizeof g_u_bits);
+  g_u_type = g_store[g_u].type_;
+  g_u_next = g_store[g_u].next_;
+}
+static _Bool u_same(void) { return g_store[g_u].content_.asLinkedString == g_u_bits && g_store[g_u].type_ == g_u_type && g_store[g_u].next_ == g_u_next; }
+
+/* getPreviousSlot(target): target = slot g_w, linked in the list (g_dist[head] is a number); any list length */
+void h_getPreviousSlot_u(void) {
+  mk_big();
+  struct CollectionData c;
+  c.head_ = (slotid_t)in_u32(); c.tail_ = (slotid_t)in_u32();
+  __CPROVER_assume(c.head_ != NSLOT && c.head_ < g_cnt && g_dist[c.head_] != DIST_NONE && g_dist[g_w] == 0);
+  VSlot r = CollectionData__getPreviousSlot(&c, &g_store[g_w], &g_rm);
+  COVER(r.ptr_ == 0); COVER(r.ptr_ != 0 && g_dist[c.head_] > 5);
+  if (c.head_ == g_w) CHECK(r.ptr_ == 0 && r.id_ == NSLOT, "the head has no previous slot: null slot");
+  else {
+    CHECK(r.ptr_ != 0 && r.id_ != NSLOT && r.id_ < g_cnt && r.ptr_ == &g_store[r.id_], "getPreviousSlot returns the (address,id) of one slot");
+#ifdef CANARY_PREV_U
+    CHECK(g_store[r.id_].next_ == g_w && g_dist[c.head_] != 3, "getPreviousSlot returns the slot whose next is the target");
+#else
+    /* (read through the id: cbmc has no points-to set for a pointer havocked by the loop contract; r.ptr_ == &g_store[r.id_] is checked above) */
+    CHECK(g_store[r.id_].next_ == g_w, "getPreviousSlot returns the slot whose next is the target");
+#endif
+  }
+  CHECK(u_same() && g_free_calls == 0, "getPreviousSlot is read-only (arbitrary witness slot unchanged, nothing released)");
+}
+/* size(): number of linked slots; any list length */
+void h_size_u(void) {
+  mk_big();
+  struct CollectionData c;
+  c.head_ = (slotid_t)in_u32(); c.tail_ = (slotid_t)in_u32();
+  struct CollectionData c0 = c;
+  g_len = in_u64();
+  __CPROVER_assume(c.head_ == NSLOT ? g_len == 0 : (c.head_ < g_cnt && g_pos[c.head_] == 0));
+  unsigned long n = CollectionData__size(&c, &g_rm);
+  COVER(n == 0); COVER(n > 5);
+#ifdef CANARY_SIZE_U
+  CHECK(n == g_len + (g_len == 7), "size() == number of linked slots");
+#else
+  CHECK(n == g_len, "size() == number of linked slots");
+#endif
+  CHECK(u_same() && g_free_calls == 0 && c.head_ == c0.head_ && c.tail_ == c0.tail_, "size() is read-only (arbitrary witness slot unchanged, nothing released)");
+}
+/* clear(): every linked slot (witness g_w) released exactly once, every other slot (witness g_u) untouched; any length */
+void h_clear_u(void) {
+  mk_big();
+  struct CollectionData c;
+  c.head_ = (slotid_t)in_u32(); c.tail_ = (slotid_t)in_u32();
+  _Bool empty = c.head_ == NSLOT;
+  __CPROVER_assume(empty || (c.head_ < g_cnt && g_member[c.head_] && g_dist[c.head_] != DIST_NONE && g_dist[g_w] == 0));
+  __CPROVER_assume(!g_member[g_u]);
+  CollectionData__clear__ResourceManager_p(&c, &g_rm);
+  COVER(empty); COVER(!empty && g_free_calls > 5);
+  CHECK(c.head_ == NSLOT && c.tail_ == NSLOT, "clear(): head_ = tail_ = NULL_SLOT");
+#ifdef CANARY_CLEAR_U
+  CHECK(empty || (g_w_frees == 1 && g_free_calls != 4), "C06: clear() releases every linked slot exactly once");
+#else
+  CHECK(empty || g_w_frees == 1, "C06: clear() releases every linked slot exactly once");
+#endif
+  CHECK(!empty || g_free_calls == 0, "clearing an empty list releases nothing");
+  CHECK(g_u_frees == 0 && u_same(), "clear() neither releases nor writes a slot outside the list");
 }
 #endif
